@@ -310,6 +310,276 @@ theorem gen_vec_swap_remove (c : Cfg) (v : VS) (i : Nat) (w : W) :
   · have hd : decide (i < v.len) = false := by simpa using hi
     rw [hd, swapRemove_oob hi]; rfl
 
+/-! ### truncate / clear
+
+The model records a step with a failed precondition (dropping an uninitialised slot: UB in the source) as a flag and
+goes on; the translation stops with `bad`.  The two are compared with `agree`: equal, or both flagged. -/
+
+/-- equal, or both recorded a UB step that the state `w` before the call had not -/
+def agree {α : Type} (w : W) (a b : VS × W × Option α) : Prop :=
+  a = b ∨ (w.bad.length < a.2.1.bad.length ∧ w.bad.length < b.2.1.bad.length)
+
+theorem dropElem_bad (c : Cfg) (w : W) (e : Elem) : (dropElem c w e).1.bad = w.bad := by
+  unfold dropElem; split <;> rfl
+
+theorem gen_slod_decrement_len (l d : Nat) (h : d ≤ l) : Gen.Fn.slod_decrement_len l d = .ok ((), l - d) := by
+  simp [Gen.Fn.slod_decrement_len, h]
+
+theorem gen_slod_increment_len (l d : Nat) (h : l + d < USIZE) : Gen.Fn.slod_increment_len l d = .ok ((), l + d) := by
+  simp [Gen.Fn.slod_increment_len, h]
+
+/-- the loop of `truncate`: the translation's pointer and guard move together (`ptr = local_len`) and every iteration
+is the model's -/
+theorem gen_truncate_loop (c : Cfg) (len cur : Nat) (slots : List (Option Elem)) (vlen cap : Nat) :
+    ∀ (k l : Nat) (w : W), k ≤ l →
+      (((truncLoop c slots k l w).2.1.bad = w.bad) ∧
+        Gen.Fn.vec_truncate.loop_1 c len cur k l l (⟨slots, vlen, cap⟩, w) =
+          (if (truncLoop c slots k l w).2.2 then ((⟨slots, (truncLoop c slots k l w).1, cap⟩, (truncLoop c slots k l w).2.1), .panic)
+           else ((⟨slots, vlen, cap⟩, (truncLoop c slots k l w).2.1), .ok ((truncLoop c slots k l w).1, (truncLoop c slots k l w).1)))) ∨
+      (w.bad.length < (truncLoop c slots k l w).2.1.bad.length ∧
+        ∃ s' why, Gen.Fn.vec_truncate.loop_1 c len cur k l l (⟨slots, vlen, cap⟩, w) = (s', .bad why) ∧ s'.2.bad = w.bad) := by
+  intro k
+  induction k with
+  | zero => intro l w _; left; simp [truncLoop, Gen.Fn.vec_truncate.loop_1]
+  | succ k ih =>
+    intro l w hk
+    have h1 : 1 ≤ l := by omega
+    unfold Gen.Fn.vec_truncate.loop_1
+    simp only [gen_slod_decrement_len l 1 h1, pureW, bindW, RsM.drop_in_place, VS.read]
+    unfold truncLoop
+    cases hs : (slots[l - 1]?).join with
+    | none =>
+      right
+      simp [W.flag, bindU]
+    | some e =>
+      simp only []
+      cases hp : (dropElem c w e).2 with
+      | true =>
+        left
+        simp [bindU, RsM.store_len, dropElem_bad]
+      | false =>
+        have hb := dropElem_bad c w e
+        simp only [bindU, Bool.false_eq_true, if_false]
+        rcases ih (l - 1) (dropElem c w e).1 (by omega) with ⟨h1, h2⟩ | ⟨h1, s', why, h2, h3⟩
+        · left; rw [hb] at h1; exact ⟨h1, h2⟩
+        · right; rw [hb] at h1 h3; exact ⟨h1, s', why, h2, h3⟩
+
+/-- `Vec::truncate` as translated against the model's `truncate`, outcome by outcome -/
+theorem gen_vec_truncate_cases (c : Cfg) (v : VS) (n : Nat) (w : W) :
+    (∃ s, Gen.Fn.vec_truncate c n (v, w) = (s, .ok ()) ∧ V.truncate c v n w = (s.1, s.2, some ())) ∨
+    (∃ s, Gen.Fn.vec_truncate c n (v, w) = (s, .panic) ∧ V.truncate c v n w = (s.1, s.2, none)) ∨
+    (∃ s why, Gen.Fn.vec_truncate c n (v, w) = (s, .bad why) ∧ s.2.bad = w.bad ∧
+      w.bad.length < (V.truncate c v n w).2.1.bad.length) := by
+  obtain ⟨slots, vlen, cap⟩ := v
+  unfold V.truncate Gen.Fn.vec_truncate
+  rcases gen_truncate_loop c n vlen slots vlen cap (vlen - n) vlen w (by omega) with ⟨h1, h2⟩ | ⟨h1, s', why, h2, h3⟩
+  · simp only [h2]
+    cases hp : (truncLoop c slots (vlen - n) vlen w).2.2 with
+    | false => left; simp [bindW, RsM.set_len]
+    | true => right; left; simp [bindW]
+  · right; right
+    exact ⟨s', why, by simp [h2, bindW], h3, h1⟩
+
+/-- `Vec::truncate` as translated is the model's `truncate` -/
+theorem gen_vec_truncate (c : Cfg) (v : VS) (n : Nat) (w : W) :
+    agree w (toModel (Gen.Fn.vec_truncate c n (v, w))) (V.truncate c v n w) := by
+  rcases gen_vec_truncate_cases c v n w with ⟨s, h1, h2⟩ | ⟨s, h1, h2⟩ | ⟨s, why, h1, h2, h3⟩
+  · left; rw [h1, h2]; rfl
+  · left; rw [h1, h2]; rfl
+  · right; rw [h1]; exact ⟨by simp [toModel, W.flag, h2], h3⟩
+
+theorem gen_vec_clear (c : Cfg) (v : VS) (w : W) :
+    agree w (toModel (Gen.Fn.vec_clear c (v, w))) (V.clear c v w) := by
+  have h := gen_vec_truncate c v 0 w
+  unfold V.clear Gen.Fn.vec_clear
+  cases hr : Gen.Fn.vec_truncate c 0 (v, w) with
+  | mk s o =>
+    rw [hr] at h
+    cases o <;> simpa [bindW, toModel] using h
+
+/-! ### extend_with / resize
+
+The source keeps the growing length in the `SetLenOnDrop` guard and stores it when the scope ends; the model keeps it in
+`len` all along.  The loop lemma relates the two: translation at vector `vg` with guard `ll` ↔ model at `{vg with len := ll}`. -/
+
+theorem write_with_len (c : Cfg) (v : VS) (l i : Nat) (e : Elem) (w : W) :
+    ({ v with len := l } : VS).write c i e w = ({ (v.write c i e w).1 with len := l }, (v.write c i e w).2) := rfl
+
+theorem extendClones_zero (c : Cfg) (x : Elem) (v : VS) (w : W) : extendClones c x 0 v w = (v, w, true) := rfl
+theorem extendClones_succ_none (c : Cfg) (x : Elem) (k : Nat) (v : VS) (w w' : W) (h : cloneElem c w x = (w', none)) :
+    extendClones c x (k + 1) v w = (v, w', false) := by
+  unfold extendClones; rw [h]
+theorem extendClones_succ_some (c : Cfg) (x e : Elem) (k : Nat) (v : VS) (w w' : W) (h : cloneElem c w x = (w', some e)) :
+    extendClones c x (k + 1) v w =
+      extendClones c x k { (v.write c v.len e w').1 with len := (v.write c v.len e w').1.len + 1 } (v.write c v.len e w').2 := by
+  conv => lhs; unfold extendClones
+  rw [h]
+
+theorem extendClones_len (c : Cfg) (x : Elem) : ∀ (k : Nat) (v : VS) (w : W), (extendClones c x k v w).1.len ≤ v.len + k := by
+  intro k
+  induction k with
+  | zero => intro v w; simp [extendClones_zero]
+  | succ k ih =>
+    intro v w
+    cases hc : cloneElem c w x with
+    | mk w' o =>
+      cases o with
+      | none => rw [extendClones_succ_none c x k v w w' hc]; simp
+      | some e =>
+        rw [extendClones_succ_some c x e k v w w' hc]
+        have h : (extendClones c x k { (v.write c v.len e w').1 with len := (v.write c v.len e w').1.len + 1 } (v.write c v.len e w').2).1.len
+            ≤ (v.len + 1) + k := ih _ _
+        omega
+
+theorem gen_extend_loop (c : Cfg) (x : Elem) (n : Nat) (r : Unit) (r1 : Nat) :
+    ∀ (k : Nat) (vg : VS) (ll : Nat) (w : W), ll + k < USIZE →
+      Gen.Fn.vec_extend_with.loop_1 c n x r r1 k ll ll (vg, w) =
+        (if (extendClones c x k { vg with len := ll } w).2.2 then
+          (({ (extendClones c x k { vg with len := ll } w).1 with len := vg.len }, (extendClones c x k { vg with len := ll } w).2.1),
+            .ok ((extendClones c x k { vg with len := ll } w).1.len, (extendClones c x k { vg with len := ll } w).1.len))
+         else (((extendClones c x k { vg with len := ll } w).1,
+                (dropElem c (extendClones c x k { vg with len := ll } w).2.1 x).1), .panic)) := by
+  intro k
+  induction k with
+  | zero => intro vg ll w _; simp [extendClones_zero, Gen.Fn.vec_extend_with.loop_1]
+  | succ k ih =>
+    intro vg ll w hk
+    unfold Gen.Fn.vec_extend_with.loop_1
+    simp only [RsM.clone_next]
+    cases hc : cloneElem c w x with
+    | mk w' o =>
+      cases o with
+      | none =>
+        rw [extendClones_succ_none c x k _ w w' hc]
+        simp [bindU, RsM.store_len, RsM.drop_elem]
+      | some e =>
+        rw [extendClones_succ_some c x e k _ w w' hc]
+        have hlt : ll + 1 < USIZE := by omega
+        simp only [bindU, RsM.write, bindW, pureW, gen_slod_increment_len ll 1 hlt]
+        rw [ih _ (ll + 1) _ (by omega)]
+        simp only [write_with_len, write_len]
+        rfl
+
+theorem rawReserve_some_lt {c : Cfg} {v v1 : VS} {n : Nat} (hl : v.len ≤ capOf c v) (hc : capOf c v < USIZE)
+    (h : rawReserve c v v.len n = some v1) : v.len + n < USIZE ∧ v1.len = v.len := by
+  unfold rawReserve reserveGen at h
+  by_cases hw : wsub (capOf c v) v.len ≥ n
+  · rw [if_pos hw] at h
+    injection h with h
+    rw [wsub_of_le hl hc] at hw
+    subst h; exact ⟨by omega, rfl⟩
+  · rw [if_neg hw] at h
+    cases hr : reserveInternal c v v.len n false with
+    | error e => rw [hr] at h; cases h
+    | ok v' =>
+      rw [hr] at h
+      obtain ⟨h1, h2⟩ := reserveInternal_shape hr
+      injection h with h
+      subst h; exact ⟨h2, h1⟩
+
+theorem extendWith_none {c : Cfg} {v : VS} {n : Nat} {x : Elem} {w : W} (hr : rawReserve c v v.len n = none) :
+    V.extendWith c v n x w = (v, (dropElem c w x).1, none) := by
+  unfold V.extendWith; rw [hr]
+theorem extendWith_fail {c : Cfg} {v v1 : VS} {n : Nat} {x : Elem} {w : W} (hr : rawReserve c v v.len n = some v1)
+    (hk : (extendClones c x (n - 1) v1 w).2.2 = false) :
+    V.extendWith c v n x w = ((extendClones c x (n - 1) v1 w).1, (dropElem c (extendClones c x (n - 1) v1 w).2.1 x).1, none) := by
+  unfold V.extendWith; rw [hr]
+  show (if (!(extendClones c x (n - 1) v1 w).2.2) = true then _ else _) = _
+  rw [hk]; rfl
+theorem extendWith_last {c : Cfg} {v v1 : VS} {n : Nat} {x : Elem} {w : W} (hr : rawReserve c v v.len n = some v1)
+    (hk : (extendClones c x (n - 1) v1 w).2.2 = true) (hn : n > 0) :
+    V.extendWith c v n x w =
+      ({ ((extendClones c x (n - 1) v1 w).1.write c (extendClones c x (n - 1) v1 w).1.len x (extendClones c x (n - 1) v1 w).2.1).1 with
+          len := ((extendClones c x (n - 1) v1 w).1.write c (extendClones c x (n - 1) v1 w).1.len x (extendClones c x (n - 1) v1 w).2.1).1.len + 1 },
+        ((extendClones c x (n - 1) v1 w).1.write c (extendClones c x (n - 1) v1 w).1.len x (extendClones c x (n - 1) v1 w).2.1).2, some ()) := by
+  unfold V.extendWith; rw [hr]
+  show (if (!(extendClones c x (n - 1) v1 w).2.2) = true then _ else _) = _
+  rw [hk]
+  show (if n > 0 then _ else _) = _
+  rw [if_pos hn]
+  rfl
+theorem extendWith_zero {c : Cfg} {v v1 : VS} {n : Nat} {x : Elem} {w : W} (hr : rawReserve c v v.len n = some v1)
+    (hk : (extendClones c x (n - 1) v1 w).2.2 = true) (hn : ¬ n > 0) :
+    V.extendWith c v n x w =
+      ((extendClones c x (n - 1) v1 w).1, (dropElem c (extendClones c x (n - 1) v1 w).2.1 x).1,
+        if (dropElem c (extendClones c x (n - 1) v1 w).2.1 x).2 then none else some ()) := by
+  unfold V.extendWith; rw [hr]
+  show (if (!(extendClones c x (n - 1) v1 w).2.2) = true then _ else _) = _
+  rw [hk]
+  show (if n > 0 then _ else _) = _
+  rw [if_neg hn]
+  rfl
+
+/-- `Vec::extend_with` (behind `resize` and `vec![x; n]`) as translated is the model's `extendWith` -/
+theorem gen_vec_extend_with (c : Cfg) (v : VS) (n : Nat) (x : Elem) (w : W) (hl : v.len ≤ capOf c v) (hc : v.cap < USIZE) :
+    toModel (Gen.Fn.vec_extend_with c n x (v, w)) = V.extendWith c v n x w := by
+  have hcap := capOf_lt c v hc
+  unfold Gen.Fn.vec_extend_with
+  rw [gen_vec_reserve]
+  cases hr : rawReserve c v v.len n with
+  | none => rw [extendWith_none hr]; rfl
+  | some v1 =>
+    obtain ⟨hlt, hlen⟩ := rawReserve_some_lt hl hcap hr
+    simp only [bindU, pureW, bindW, gen_vec_len]
+    have hk : v1.len + (n - 1) < USIZE := by omega
+    rw [gen_extend_loop c x n _ _ (n - 1) v1 v1.len w hk]
+    have heta : ({ v1 with len := v1.len } : VS) = v1 := rfl
+    rw [heta]
+    have hlen2 := extendClones_len c x (n - 1) v1 w
+    cases hok : (extendClones c x (n - 1) v1 w).2.2 with
+    | false =>
+      rw [extendWith_fail hr hok]
+      simp [toModel]
+    | true =>
+      simp only [if_true]
+      by_cases hn : n > 0
+      · have hd : decide (n > 0) = true := by simpa using hn
+        have hinc : (extendClones c x (n - 1) v1 w).1.len + 1 < USIZE := by omega
+        rw [extendWith_last hr hok hn, if_pos hd]
+        simp only [RsM.write, bindW, pureW, gen_slod_increment_len _ 1 hinc, RsM.set_len, toModel, write_with_len, write_len]
+      · have hd : decide (n > 0) = false := by simpa using hn
+        rw [extendWith_zero hr hok hn, hd]
+        simp only [Bool.false_eq_true, if_false, RsM.set_len, bindW, RsM.drop_local]
+        cases hp : (dropElem c (extendClones c x (n - 1) v1 w).2.1 x).2 <;> simp [toModel]
+
+theorem resize_grow {c : Cfg} {v : VS} {n : Nat} {x : Elem} {w : W} (h : n > v.len) :
+    V.resize c v n x w = V.extendWith c v (n - v.len) x w := by
+  unfold V.resize; exact if_pos h
+theorem resize_shrink {c : Cfg} {v : VS} {n : Nat} {x : Elem} {w : W} (h : ¬ n > v.len) :
+    V.resize c v n x w =
+      ((V.truncate c v n w).1, (dropElem c (V.truncate c v n w).2.1 x).1,
+        if (V.truncate c v n w).2.2.isNone || (dropElem c (V.truncate c v n w).2.1 x).2 then none else some ()) := by
+  unfold V.resize; exact if_neg h
+
+/-- `Vec::resize` as translated is the model's `resize` (up to `agree`, inherited from `truncate`) -/
+theorem gen_vec_resize (c : Cfg) (v : VS) (n : Nat) (x : Elem) (w : W) (hl : v.len ≤ capOf c v) (hc : v.cap < USIZE) :
+    agree w (toModel (Gen.Fn.vec_resize c n x (v, w))) (V.resize c v n x w) := by
+  unfold Gen.Fn.vec_resize
+  simp only [gen_vec_len, pureW, bindW]
+  by_cases h : n > v.len
+  · have hd : decide (n > v.len) = true := by simpa using h
+    have hle : v.len ≤ n := by omega
+    left
+    rw [if_pos hd, if_pos hle, resize_grow h, ← gen_vec_extend_with c v (n - v.len) x w hl hc]
+    cases Gen.Fn.vec_extend_with c (n - v.len) x (v, w) with
+    | mk s o => cases o <;> rfl
+  · have hd : decide (n > v.len) = false := by simpa using h
+    rw [hd, resize_shrink h]
+    simp only [Bool.false_eq_true, if_false]
+    rcases gen_vec_truncate_cases c v n w with ⟨s, h1, h2⟩ | ⟨s, h1, h2⟩ | ⟨s, why, h1, h2, h3⟩
+    · left
+      rw [h1, h2]
+      simp only [bindU, RsM.drop_local, bindW]
+      cases hp : (dropElem c s.2 x).2 <;> simp [toModel]
+    · left
+      rw [h1, h2]
+      simp [bindU, RsM.drop_elem, toModel]
+    · right
+      rw [h1]
+      refine ⟨by simp [bindU, toModel, W.flag, h2], ?_⟩
+      simp only [dropElem_bad]
+      exact h3
+
 #print axioms gen_vec_len
 #print axioms gen_vec_capacity
 #print axioms gen_vec_is_empty
@@ -323,5 +593,11 @@ theorem gen_vec_swap_remove (c : Cfg) (v : VS) (i : Nat) (w : W) :
 #print axioms gen_vec_insert
 #print axioms gen_vec_remove
 #print axioms gen_vec_swap_remove
+#print axioms gen_vec_truncate
+#print axioms gen_vec_clear
+#print axioms gen_vec_extend_with
+#print axioms gen_vec_resize
+#print axioms gen_slod_decrement_len
+#print axioms gen_slod_increment_len
 
 end Bump.V
